@@ -362,8 +362,8 @@ LEVEL_TEXT = ('Proof for codec pairs: one step of delta encoding followed by del
               'flag is set, for all 64 option combinations; the Info message of ways, relations and non-dense nodes carries exactly the enabled fields with the attribute values of the object; the PBF header bounding box conversion (integer arithmetic since the F22 repair) is checked against the reader for every valid coordinate; '
               'DenseNodes::add_node (with any helper it is split into) appends exactly one entry to every enabled column and, for any number of tags, a run of two non-zero string ids per tag closed by one 0 to keys_vals; '
               'StringTable::add returns for a new string the index of its position in the store (never 0), for a known string its old index, and keeps the byte count of the serialised table; '
-              'the block size estimate behind can_add() covers every part of a block that is not bounded by the entity count (group data, bytes of the string table, dense node tags), and can_add() admits an object only below 95 per cent of the blob limit. '
+              'the block size estimate behind can_add() covers every part of a block that is not bounded by the entity count (group data, bytes of the string table, dense node tags), and can_add() admits an object only below 95 per cent of the blob limit; the XML writer puts the discussion and the tags of a changeset into the element exactly when they exist and self-closes the element only without content. '
               'Other pairs are decided under C13 '
               '(numbers, coordinates), C14 (strings) and C02 (PBF metadata ranges, lat/lon with block parameters).')
 LEVEL_NOTE = ('Trusted: CBMC, extraction rules, protozero, compression libraries, expat. The statement is about whole files; only leaf codec pairs are decided. Assumed: contracts of the hash index and string store inside StringTable. Not decided: Writer/Reader pipeline, option matrix as executions, '
-              'a single object larger than the 5 per cent reserve of a block, XML formatting.')
+              'a single object larger than the 5 per cent reserve of a block, the rest of the XML and OPL writers (attribute text).')
